@@ -14,7 +14,14 @@ from cobald.utility import InvariantError
 
 from ..core import Task
 from ..symx import And, Implies, Not, Or, SNum, XF, is_sym
-from .common import FakeTrio, RecPool, patched, same
+from .common import FakeTrio, RecPool, numeric_stubs, patched, same
+import cobald.controller.linear as _lin_mod
+import cobald.controller.relative_supply as _rel_mod
+
+# int() / float() / math.floor / math.ceil as seen from the modules under test act on proxies (stubs, listed in evidence)
+for _m in (_lin_mod, _rel_mod, stepwise_mod, switch_mod):
+    for _mod, _name, _val in numeric_stubs(_m):
+        setattr(_mod, _name, _val)
 
 PROPERTY = "C08"
 MOD = __name__
@@ -46,7 +53,7 @@ MANIFEST = {
             "hash of threshold proxies allowed only inside RangeSelector._compile_lookup, which never looks a key up",
     "design_ref": "DESIGN.md §3 C08",
 }
-STUBS = [
+STUBS = ["int / float / math.floor / math.ceil (as seen from the modules under test) accept number proxies", 
     "trio (as seen from cobald.controller.stepwise) -> sleep yields ('sleep', d) to the driver",
     "isinstance (as seen from cobald.controller.switch) accepts number proxies for int/float",
     "hash() of threshold proxies enabled for RangeSelector._compile_lookup (dict is only iterated)",
@@ -297,12 +304,14 @@ def switch(ctx, k, steps=1):
     args = []
     for t, s in zip(thresholds, slaves):
         args += [t, s]
+    ctx.allow_hash = True  # thresholds may be stored as keys; identity hash: distinct proxies never merge
     with patched((switch_mod, "isinstance", _isinstance)):
         try:
             c = DemandSwitch(p, default, *args, interval=ival)
             built = True
-        except TypeError:  # sorted() falls through to comparing controllers on a tie
+        except (TypeError, InvariantError):  # sorted() falls through to comparing controllers on a tie
             built = False
+    ctx.allow_hash = False
     ctx.observe("built", built)
     if not built:
         ctx.reach()
@@ -340,7 +349,7 @@ def switch(ctx, k, steps=1):
 
 def tasks(tier, seed):
     out = []
-    steps = 1 if tier == "quick" else 2
+    steps = 2 if tier == "quick" else 3  # consecutive steps with fresh pool states: no state may be carried over
     kmax = 3 if tier == "quick" else 4
     out.append(Task(MOD, "linear", dict(steps=steps)))
     out.append(Task(MOD, "linear_ctor"))
